@@ -510,7 +510,11 @@ func (p *player) step(s ScStep) {
 	case "release":
 		p.setGate(s.Point, s.Ep, false)
 	case "wait_held":
-		if !p.waitHeld(s.Point, s.Ep, 2*time.Second) {
+		to := 2 * time.Second
+		if s.Ms > 0 {
+			to = time.Duration(s.Ms) * time.Millisecond
+		}
+		if !p.waitHeld(s.Point, s.Ep, to) {
 			p.rec.Put(M{"e": "Unreached", "point": s.Point, "ep": s.Ep, "t": p.ms()})
 		}
 	case "peer_connect":
